@@ -8,6 +8,7 @@
 //!   ripline <9 ints> <coords…>  Bgi::{line, rectangle, draw_poly, draw_poly_line} called directly (see fn ripline)
 //!   igsobs <hex>          stage-C observation of the IGS parser + DrawExecutor (extension: IGS tokenizer / pixel kernel)
 //!   igsdrain <hex> <n>    drain a pending loop for up to n further get_next_action calls
+//!   igspix <hex>          the pixels a stream changed (for the line-clipping oracle of the search stage)
 //!   igs    <hex>          feed the bytes to a fresh igs::Parser + DrawExecutor, draining at most 64 loop steps per char
 //!
 //! The engine prints to stdout from a few places (`println!` in the default `Command::run`, IGS loop parameter
@@ -319,6 +320,35 @@ fn igsobs(args: &[&str]) -> Obs {
     Ok(v)
 }
 
+/// `igspix <hex>`: feed the stream (same protocol) and list the pixels it changed: [width; height; count; offset…]
+/// (offset = y * width + x; at most 5000 offsets; count -1 when the stream changed the resolution). For the line-clipping oracle.
+fn igspix(args: &[&str]) -> Obs {
+    let _q = Quiet::new();
+    let exe: Arc<Mutex<Box<dyn icy_engine::igs::CommandExecutor>>> = Arc::new(Mutex::new(Box::<icy_engine::igs::DrawExecutor>::default()));
+    let mut p = icy_engine::igs::Parser::new(exe.clone());
+    let (mut buf, mut caret) = new_buf();
+    let before = p.get_picture_data().map(|(_, px)| px).unwrap_or_default();
+    for b in unhex(args[0]) {
+        let _ = p.print_char(&mut buf, 0, &mut caret, char::from(b));
+        for _ in 0..64 {
+            if p.get_next_action(&mut buf, &mut caret, 0).is_none() {
+                break;
+            }
+        }
+    }
+    let res = exe.lock().unwrap().get_resolution();
+    let after = p.get_picture_data().map(|(_, px)| px).unwrap_or_default();
+    let mut v = vec![res.width as i64, res.height as i64];
+    if after.len() != before.len() {
+        v.push(-1);
+        return Ok(v);
+    }
+    let changed: Vec<i64> = (0..after.len() / 4).filter(|i| after[i * 4..i * 4 + 4] != before[i * 4..i * 4 + 4]).map(|i| i as i64).collect();
+    v.push(changed.len() as i64);
+    v.extend(changed.iter().take(5000));
+    Ok(v)
+}
+
 /// `igsdrain <hex> <n>`: feed the stream (same protocol), then call get_next_action up to n more times;
 /// [steps during the stream; further steps; 1 if the loop ended (None) within n calls else 0]
 fn igsdrain(args: &[&str]) -> Obs {
@@ -393,6 +423,7 @@ pub fn run(kind: &str, args: &[&str]) -> Option<Obs> {
         "igs" | "igsseq" => igs(args),
         "igsobs" => igsobs(args),
         "igsdrain" => igsdrain(args),
+        "igspix" => igspix(args),
         "riptime" => timed("rip", args),
         "igstime" => timed("igs", args),
         _ => return None,
